@@ -39,6 +39,9 @@ const MUTATIONS: [&str; 12] = ["store", "move-value", "move-scope", "delete", "d
 #[derive(Clone, Copy, PartialEq)]
 enum Mode { Record, Crash, Fail }
 
+/// Pseudo cut index: the fault hits the removal of the old rsync directory, wherever it is in the trace.
+const FAIL_REMOVE_OLD: u64 = u64::MAX - 1;
+
 struct CutProbe {
     on: AtomicBool,
     count: AtomicU64,
@@ -101,7 +104,7 @@ impl Probe for CutProbe {
         if !MUTATIONS.contains(&ev.kind) { return true }
         let n = self.count.fetch_add(1, Ordering::SeqCst);
         let (store, class) = shape_of(&self.root, ev);
-        let hit = n == self.cut && self.mode != Mode::Record;
+        let hit = (n == self.cut || (self.cut == FAIL_REMOVE_OLD && ev.kind == "fs-remove-dir" && ev.ns.ends_with("/rsync/old"))) && self.mode != Mode::Record;
         {
             let mut f = self.log.lock().unwrap();
             let _ = writeln!(f, "{}", json!({"n": n, "store": store, "class": class, "kind": ev.kind, "ns": ev.ns, "scope": ev.scope, "key": ev.key, "extra": ev.extra, "cut": hit}));
@@ -182,6 +185,19 @@ fn prep(state: &str, seed: u64) {
         "rollnew" => { sys.keyroll_init(t).expect("roll init"); sys.sync_parent(t, "a").expect("sync 1"); sys.sync_parent(t, "a").expect("sync 2"); let _ = sys.pump(200, 3000); }
         "rollold" => { sys.keyroll_init(t).expect("roll init"); sys.sync_parent(t, "a").expect("sync 1"); sys.sync_parent(t, "a").expect("sync 2"); let _ = sys.pump(200, 3000);
                        sys.keyroll_activate(t).expect("activate"); }
+        "oldleft" => {
+            // an RRDP/rsync write whose final removal of rsync/old fails: the directory is left behind, as after a
+            // crash right after the switch (the state the repaired RsyncdStore::write has to cope with)
+            sys.routes_update(t, &[&p.roa], &[]).expect("roa");
+            let r = sys.run_one_task(); assert!(r.map(|x| x.1.contains("synchronize repo")).unwrap_or(false), "the sync-repo task was expected");
+            let probe = install_probe(Mode::Fail, FAIL_REMOVE_OLD);
+            probe.on.store(true, Ordering::SeqCst);
+            let r = sys.krill.repo_manager().update_rrdp_if_needed();
+            probe.on.store(false, Ordering::SeqCst);
+            set_probe(None);
+            if r.is_ok() { eprintln!("prep oldleft: the failing removal did not fail the write"); }
+            let _ = std::fs::remove_file("trace.log");
+        }
         "ahead" => {
             // a ROA update whose command store fails: the SyncRepo task for the next version stays queued (F08a)
             let probe = install_probe(Mode::Fail, 2);
@@ -289,7 +305,7 @@ fn facts(sys: &Sys) -> Value {
         .and_then(|b| rpki::rrdp::NotificationFile::parse(b.as_slice()).ok()).map(|n| n.serial()).unwrap_or(0);
     let content_serial = sys.krill.repo_manager().repo_stats().ok().map(|s| serde_json::to_value(&s).unwrap()["serial"].as_u64().unwrap_or(0)).unwrap_or(0);
     json!({"versions": versions, "objects": objs, "tasks": task_names(sys),
-           "has_current": repo.join("rsync/current").exists(), "rsync_files": count_files(&repo.join("rsync/current")),
+           "has_current": repo.join("rsync/current").exists(), "has_old": repo.join("rsync/old").exists(), "rsync_files": count_files(&repo.join("rsync/current")),
            "notification_serial": notif_serial, "content_serial": content_serial})
 }
 
@@ -772,7 +788,7 @@ fn cut_class(tr: &[(String, String)], n: usize) -> String {
     if n > 0 && tr[n - 1].0 == "tasks" && tr[n - 1].1.starts_with("delete:pending") && tr[n].0 == "tasks" && tr[n].1.starts_with("store:pending") { return "queue-delete-before-store".into() }
     if tr[n].0 == "repo" {
         if tr[n].1 == "fs-rename:rsync-tmp" && n > 0 && tr[n - 1].1 == "fs-rename:rsync-current" { return "rsync-between-renames".into() }
-        if tr[n].1 == "fs-remove-dir:rsync-old" { return "rsync-after-switch-before-remove-old".into() }
+        if tr[n].1 == "fs-remove-dir:rsync-old" && n > 0 && tr[n - 1].1 == "fs-rename:rsync-tmp" { return "rsync-after-switch-before-remove-old".into() }
         if tr[n].1.contains("rsync") { return "rsync-write".into() }
         return "rrdp-write".into();
     }
@@ -888,17 +904,18 @@ fn kind_term(state: &str, op: &str, twin: &CaseOut, pre: &Value) -> String {
     // the files of the tree right after the operation, counted in the directory (not in the trace)
     let n_files = twin.res["at_cut"]["rsync_files"].as_u64().unwrap_or(0);
     let hc = pre["has_current"].as_bool().unwrap_or(false);
+    let ho = pre["has_old"].as_bool().unwrap_or(false);
     let nd = twin.res["at_cut"]["content_serial"].as_u64().unwrap_or(0).saturating_sub(pre["notification_serial"].as_u64().unwrap_or(0));
     // the clean-up after the notification switch depends on which old files / serial directories exist: taken as observed
     let cleanup: Vec<String> = twin.trace.iter().filter(|t| t["class"].as_str().map(|c| c.ends_with(":rrdp-dir")).unwrap_or(false)).map(|t| (t["kind"] == "fs-remove-dir").to_string()).collect();
-    let rrdp = format!("(KRrdpUpdate {nd}%nat {} {n_files}%nat {hc})", coq_list(&cleanup));
+    let rrdp = format!("(KRrdpUpdate {nd}%nat {} {n_files}%nat {hc} {ho})", coq_list(&cleanup));
     match (state, op) {
         (_, "keyroll_init") => "KKeyrollInit".into(),
         (_, "sync_parent") => "KSyncParent".into(),
         (_, "republish") => "KRepublish".into(),
         (_, "sync_repo") => "KSyncRepo".into(),
         (_, "rrdp_update") => rrdp,
-        (_, "rsync_write") => format!("(KRsyncWrite {n_files}%nat {hc})"),
+        (_, "rsync_write") => format!("(KRsyncWrite {n_files}%nat {hc} {ho})"),
         ("dirty", "task") => "(KTask KSyncRepo)".into(),
         ("ahead", "task") => "(KTask KIdle)".into(),
         ("staged", "task") => format!("(KTask {rrdp})"),
@@ -913,7 +930,8 @@ fn symptom(c: &CaseOut, twin: &CaseOut, converged: bool, tasks_kept: bool) -> (u
     let has = |pat: &str| errs.iter().any(|e| e.contains(pat));
     let keys = |r: &Value, ca: &str| r["obs"]["cas"][ca]["classes"][0]["keys"].as_str().unwrap_or("").to_string();
     let p = params_target(c);
-    if has("Could not rename current rsync dir") { return (4, "rsync-old-dir-blocks-writes") }
+    // repaired by e1f99c61: must not occur any more, so it is not an excusable class (candidate number 0)
+    if has("Could not rename current rsync dir") { return (0, "rsync-old-dir-blocks-writes") }
     if c.op == "keyroll_activate" && has("wrong key state") && keys(&c.res, p) == "roll_new" { return (2, "keyroll-activate-wedged") }
     if c.op == "sync_parent" && has("No issued cert matching pub key") && keys(&c.res, p) == "roll_old" { return (3, "revoke-not-retryable") }
     if !converged && c.op == "sync_parent" && c.state == "rollpending" && keys(&c.res, p) == "active" && keys(&twin.res, p) == "roll_new" { return (5, "keyroll-abandoned-class-dropped") }
@@ -939,10 +957,10 @@ fn main() {
     let (rc, err) = run_worker(&exe, seed, &base, &[("worker", "setup".into())]);
     assert!(rc == Some(0), "setup failed: {err}");
     eprintln!("setup {:?}", t0.elapsed());
-    let quick: Vec<(&str, &str)> = vec![("base", "roa_add"), ("base", "entitlement"), ("rollpending", "sync_parent"), ("rollnew", "keyroll_activate"), ("dirty", "task"), ("ahead", "task"), ("staged", "rrdp_update")];
+    let quick: Vec<(&str, &str)> = vec![("base", "roa_add"), ("base", "entitlement"), ("rollpending", "sync_parent"), ("rollnew", "keyroll_activate"), ("dirty", "task"), ("ahead", "task"), ("staged", "rrdp_update"), ("oldleft", "rsync_write")];
     let all: Vec<(&str, &str)> = vec![("base", "roa_add"), ("base", "aspa_add"), ("base", "entitlement"), ("ent", "sync_parent"), ("base", "keyroll_init"), ("rollpending", "sync_parent"),
         ("rollnew", "keyroll_activate"), ("rollold", "sync_parent"), ("dirty", "task"), ("dirty", "sync_repo"), ("dirty", "roa_add2"), ("staged", "rrdp_update"), ("staged", "rsync_write"), ("base", "republish"), ("staged", "task"),
-        ("rollnew", "roa_add"), ("rollold", "roa_add"), ("rollpending", "roa_add"), ("rollnew", "entitlement"), ("ent", "roa_add"), ("ahead", "task")];
+        ("rollnew", "roa_add"), ("rollold", "roa_add"), ("rollpending", "roa_add"), ("rollnew", "entitlement"), ("ent", "roa_add"), ("ahead", "task"), ("oldleft", "rsync_write")];
     let plan: Vec<(&str, &str)> = match args.extra.get("plan").map(|s| s.as_str()) {
         Some("all") => all.clone(),
         Some(p) if p.contains('/') => p.split(',').map(|x| { let (a, b) = x.split_once('/').unwrap(); *all.iter().find(|(s, o)| *s == a && *o == b).expect("unknown state/op") }).collect(),
@@ -1068,13 +1086,13 @@ fn main() {
         *sym_hist.entry(sym_name.to_string()).or_default() += 1;
         *op_hist.entry(format!("{}/{}", c.state, c.op)).or_default() += 1;
         if converged && !d_prompt.is_empty() { *delayed_hist.entry(format!("{}/{} {}", c.state, c.op, cls)).or_default() += 1; }
-        if cand != 0 || sym == "diverged" || !loads || ack_lost || !rp_ok { if candidates.len() < 60 { candidates.push(rec.clone()); } }
+        if cand != 0 || sym == "diverged" || sym == "rsync-old-dir-blocks-writes" || !loads || ack_lost || !rp_ok { if candidates.len() < 60 { candidates.push(rec.clone()); } }
         if atomic_broken && atomic_cases.len() < 12 { atomic_cases.push(json!({"index": w.total, "op": c.op, "state": c.state, "mode": c.mode, "cut": c.n, "objects_changed": objs_changed, "new_commands": new_cmds,
             "roas_published_without_logged_command_after_restart_and_tasks": c.res["obs_pump"]["orphan_roas"], "orphan_roas_at_the_end": c.res["obs"]["orphan_roas"]})); }
         traces.entry(format!("{}/{}", c.state, c.op)).or_insert_with(|| json!(twin.trace.iter().map(|t| format!("{} {}", t["store"].as_str().unwrap_or(""), t["class"].as_str().unwrap_or(""))).collect::<Vec<_>>()));
         distinct.insert(format!("{}|{}|{}|{}", c.state, c.op, c.mode, c.n));
         if samples.len() < 4 && (w.total % 29 == 5) { samples.push(rec.clone()); }
-        if verbose || sym == "diverged" || !loads || ack_lost || !rp_ok {
+        if verbose || sym == "diverged" || sym == "rsync-old-dir-blocks-writes" || !loads || ack_lost || !rp_ok {
             println!("{}/{} {} n={} [{}] {} loads {} rp {} converged {} prompt {} lost {:?} resubmit {}", c.state, c.op, c.mode, c.n, cls, sym_name, loads, rp_ok, converged, d_prompt.is_empty(), lost, c.res["resubmit"].to_string().chars().take(100).collect::<String>());
             for d in diffs.iter().take(5) { println!("      diff {d}"); }
             if fatal { println!("      fatal {}", c.res["fatal"]); }
@@ -1082,7 +1100,7 @@ fn main() {
         w.push(term);
     }
     w.flush();
-    let excusable = ["keyroll-activate-wedged", "revoke-not-retryable", "keyroll-abandoned-class-dropped", "recurring-task-lost", "rsync-old-dir-blocks-writes"];
+    let excusable = ["keyroll-activate-wedged", "revoke-not-retryable", "keyroll-abandoned-class-dropped", "recurring-task-lost"];
     for (k, v) in &sym_hist {
         if k == "none" { continue }
         let counted = if k == "objects-ahead-of-log" { strict_atomic } else if excusable.contains(&k.as_str()) { strict } else { true };
